@@ -6,7 +6,7 @@ PROP_FILE = 'C10'
 
 
 def cfg_of(run):
-    c = run.manager._config if hasattr(run, 'manager') else None
+    c = getattr(run, 'requested', None) or (run.manager._config if hasattr(run, 'manager') else None)
     if c is None:
         from s3transfer.manager import TransferConfig
         c = TransferConfig(**run_cfg(run))
@@ -40,8 +40,8 @@ SAMPLER = make_sampler()
 
 def mons():
     return [M.m_terminates, M.m_limits, M.m_permits_restored, M.m_stream_order, M.m_success_means_all_ok,
-            lambda r: M.m_download_window(r, r.manager._config.max_in_memory_download_chunks),
-            lambda r: M.m_window_capacity(r, r.manager._config.max_in_memory_download_chunks)]
+            lambda r: M.m_download_window(r, r.requested.max_in_memory_download_chunks),
+            lambda r: M.m_window_capacity(r, r.requested.max_in_memory_download_chunks)]
 
 
 def specs(ctx):
